@@ -37,8 +37,8 @@ namespace occa {
     streamTagRing.addRef(s);
   }
 
-  void modeStreamTag_t::removeStreamTagRef(streamTag *s) {
-    streamTagRing.removeRef(s);
+  bool modeStreamTag_t::removeStreamTagRef(streamTag *s) {
+    return streamTagRing.removeRef(s);
   }
 
   bool modeStreamTag_t::needsFree() const {
